@@ -43,7 +43,7 @@ def match_inputs(chk, F, rule, cfg):
             args = [x for _, x in tup[4]] if tup[0] == 'agg' else []
             ok_in = bool(args) and mentions(args[0], lambda x: x == ('param', 0, 2) or (x[0] == 'ref' and x[1][0] == ('ptr', ('param', 0, 2))))
             rep = args[1] if len(args) > 1 else ('unk', '')
-            ok_rep = mentions(rep, lambda x: (x[0] == 'as' and x[2] == 'Some' and mentions(x, lambda y: y == ('param', 0, 3))) or (x[0] == 'ref' and x[1][0] == ('ptr', ('field', ('as', ('param', 0, 3), 'Some'), '0')))) or mentions(rep, lambda x: is_call(x, r'MismatchReporter::new_disabled$')) or \
+            ok_rep = mentions(rep, lambda x: (x[0] == 'as' and x[2] == 'Some' and mentions(x, lambda y: y == ('param', 0, 3))) or (x[0] == 'ref' and x[1][0] == ('ptr', ('field', ('as', ('param', 0, 3), 'Some'), '0')))) or mentions(rep, lambda x: is_call(x, r'MismatchReporter::new_disabled$') or (is_call(x, r'MismatchReporter::new$') and x[2] and strip(x[2][0]) == ('c', False))) or \
                 mentions(rep, lambda x: x == ('param', 0, 3) or (x[0] == 'ref' and x[1][0] == ('ptr', ('param', 0, 3))))     # (the caller's reporter handed on as it is)
             ok_ret = r[0] == 'agg' and r[3] == 'Ok' and strip(r[4][0][1])[0] == 'call' and strip(r[4][0][1])[3] == e.data[3]
             chk.ob(rule, 'match_inputs runs the stored matcher on the call\'s inputs with the given (or a disabled) reporter and returns its verdict unchanged', ok_in and ok_rep and ok_ret, config=cfg, fn=fn, site='call',
